@@ -559,7 +559,15 @@ func c05forgedCase(c *vf.Ctx, i int) {
 		}
 		c05check(c, "foreign-appended", s+f)
 		c05check(c, "foreign-prepended", f+s)
-		c.Count("forged_foreign_characters", 4)
+		if pos < len(s) {
+			// a multi-byte rune whose code point's low byte is the replaced character
+			cp := rune(1+r.Intn(0x10ff))<<8 | rune(s[pos])
+			if cp < 0xd800 || cp > 0xdfff {
+				c05check(c, "foreign-rune-aliasing-low-byte", s[:pos]+string(cp)+s[pos+1:])
+			}
+		}
+		c05check(c, "foreign-dotless-i-for-1", "\u0131"+s)
+		c.Count("forged_foreign_characters", 6)
 	case 8: // degenerate strings
 		for _, s := range []string{"", "1", " ", "11111111111111111111111111111111111111111111111111111111111111111111111111111111111",
 			ref.B58Encode(make([]byte, 82)), ref.B58Encode(c05sum(make([]byte, 78))), "xprv", "xpub", "zeroed extended key"} {
